@@ -439,6 +439,7 @@ var pairs = []pair{
 	{"P12", &P12{}, &P12v2{}, []interface{}{&P12Author{}}},
 	{"P13", &P13{}, &P13v2{}, nil},
 	{"P15", &P15{}, &P15v2{}, nil},
+	{"P16", &P16{}, &P16v2{}, nil},
 	{"P14", &P14{}, &P14v2{}, nil},
 	{"P10", &P10Emp{}, &P10Empv2{}, []interface{}{&P10Co{}, &P10Dept{}, &P10Lang{}}},
 }
@@ -685,6 +686,7 @@ func runRound(in RoundIn) RoundObs {
 	}
 	o.Before = dump(db, o.First.Table, cols)
 	missingIndexes(db, p.V1, o.First.Table, "v1", &o.Errs)
+	missingUniques(db, p.V1, o.First.Table, "v1", &o.Errs)
 	// preview: AutoMigrate(v2) in a DryRun session over the v1 table must leave the schema as it is
 	// (the real migration below must still find everything to do)
 	snap := schemaSnapshot(db, o.First.Table)
@@ -707,6 +709,7 @@ func runRound(in RoundIn) RoundObs {
 	}
 	o.Extend = migrateObserved(db, rec, st, p.V2, p.Deps, &o.Errs)
 	missingIndexes(db, p.V2, o.First.Table, "v2", &o.Errs)
+	missingUniques(db, p.V2, o.First.Table, "v2", &o.Errs)
 	o.After = dump(db, o.First.Table, cols)
 	// every belongs-to the struct declares has its foreign key in the migrated table (read from
 	// the struct by this harness, looked for in the stored table definition)
@@ -939,8 +942,44 @@ func missingIndexes(db *gorm.DB, model interface{}, table, which string, errs *[
 	}
 }
 
+// missingUniques: every column a top-level field tags `unique` carries a UNIQUE constraint in the
+// stored table definition.
+func missingUniques(db *gorm.DB, model interface{}, table, which string, errs *[]string) {
+	t := reflect.TypeOf(model).Elem()
+	ns := schema.NamingStrategy{}
+	var ddl string
+	db.Raw("SELECT sql FROM sqlite_master WHERE type = 'table' AND name = ?", table).Row().Scan(&ddl)
+	for i := 0; i < t.NumField(); i++ {
+		f := t.Field(i)
+		col, uniq := "", false
+		for _, part := range strings.Split(f.Tag.Get("gorm"), ";") {
+			kv := strings.SplitN(strings.TrimSpace(part), ":", 2)
+			switch strings.ToUpper(strings.TrimSpace(kv[0])) {
+			case "COLUMN":
+				if len(kv) > 1 {
+					col = strings.TrimSpace(kv[1])
+				}
+			case "UNIQUE":
+				uniq = len(kv) == 1 || !strings.EqualFold(strings.TrimSpace(kv[1]), "false")
+			}
+		}
+		if !uniq || f.Type.Kind() == reflect.Struct {
+			continue
+		}
+		if col == "" {
+			col = ns.ColumnName("", f.Name)
+		}
+		if !strings.Contains(ddl, "UNIQUE (`"+col+"`)") {
+			*errs = append(*errs, fmt.Sprintf("after migrating %s the column %s tagged unique has no UNIQUE constraint", which, col))
+		}
+	}
+}
+
 // roundSig: known-finding signature of a round input.
 func roundSig(in RoundIn) string {
+	if in.Pair == "P16" {
+		return "float-default-in-exponent-notation-realtered"
+	}
 	return "" // (the P14 finding is fixed in /repo: fa267c0)
 }
 
@@ -1171,6 +1210,9 @@ func main() {
 	r := lib.NewRng(a.Seed)
 	// round cases: every pair, with and without rows
 	for _, p := range pairs {
+		if p.Name == "P16" {
+			continue // known finding: replayed from the corpus only
+		}
 		for _, n := range []int{0, 3} {
 			addRound("main", RoundIn{Pair: p.Name, Rows: n, Seed: r.U64()})
 		}
